@@ -271,7 +271,8 @@ def run(ctx):
             if e.kind == 'call' and e.ftext == 'out.show':
                 none = [v for a, v in p.decisions if a.text == 'self.obj.connection is None']
                 if none and not none[0]:
-                    ctx.check("self.obj.connection.name() + ': '" in e.text, 'C14.3', 'show:connection-name', f_ms.loc(e.node), 'the displayed prefix is the connection\'s name followed by a colon', 'displayed prefix in %s' % e.text[:140])
+                    from .common import dtext as _dt
+                    ctx.check("self.obj.connection.name() + ': '" in (_dt(e.args[0]) if e.args else ''), 'C14.3', 'show:connection-name', f_ms.loc(e.node), 'the displayed prefix is the connection\'s name followed by a colon', 'displayed prefix in %s' % e.text[:140])
     f_mp = repo.func('MessagePattern.matches')
     ctx.check(any(a.text == 'self.conn_matcher.matches(message.obj.connection)' for p in paths_of(repo, f_mp, unroll=1) for a, v in p.decisions), 'C14.3', 'pattern:conn-of-target', f_mp.loc(),
               'a message pattern tests the connection of the message\'s target object')
